@@ -140,7 +140,10 @@ NUM_LITS = [("1.0", 1.0), ("1.50", 1.5), ("007", 7.0), ("1e3", 1000.0), ("1E3", 
             ("1.5e2", 150.0), ("0.0", 0.0), ("10", 10.0), ("1e10", 1e10), ("1.7976931348623157e308", 1.7976931348623157e308), ("4.9e-324", 5e-324), ("1e400", float("inf")), ("00.5", 0.5),
             ("9007199254740993", 9007199254740992.0), ("0", 0.0), ("255", 255.0), ("256", 256.0), ("65535", 65535.0), ("65536", 65536.0), ("0.30000000000000004", 0.1 + 0.2), ("123.456", 123.456)]
 STR_LITS = [("'a\\nb'", "a\nb"), ("'a\\tb'", "a\tb"), ("'a\\\\b'", "a\\b"), ("'it\\'s'", "it's"), ("\"dq 'x'\"", "dq 'x'"), ("'dq \"y\"'", 'dq "y"'), ("'\\u{41}'", "A"), ("'\\r'", "\r"),
-            ("'\\u{1F600}'", "\U0001F600"), ("\"a\\\"b\"", 'a"b'), ("'h\u00e9llo'", "h\u00e9llo"), ("'\u65e5\u672c'", "\u65e5\u672c"), ("''", ""), ("' '", " "), ("'$x'", "$x"), ("'a$'", "a$"), ("'{}'", "{}")]
+            ("'\\u{1F600}'", "\U0001F600"), ("\"a\\\"b\"", 'a"b'), ("'h\u00e9llo'", "h\u00e9llo"), ("'\u65e5\u672c'", "\u65e5\u672c"), ("''", ""), ("' '", " "), ("'$x'", "$x"), ("'a$'", "a$"), ("'{}'", "{}"),
+            # unicode escapes of every length 1..6
+            ("'\\u{9}x'", "\tx"), ("'\\u{e9}'", "\u00e9"), ("'\\u{3A9}'", "\u03a9"), ("'\\u{0041}'", "A"), ("'\\u{1f600}'", "\U0001F600"), ("'\\u{01F600}'", "\U0001F600"), ("'\\u{10FFFF}'", "\U0010FFFF"),
+            ("'\\u{000041}b'", "Ab")]
 
 
 def literal_programs():
